@@ -190,6 +190,15 @@ class UNoArgsInit(RuntimeError):
     super().__init__('fixed message')
     self.flag = True
 
+class UNewMismatch(Exception):
+  # __new__ wants two arguments, args holds one formatted string: the class
+  # cannot be re-instantiated from exception.args
+  def __new__(cls, code, detail):
+    return super().__new__(cls, code, detail)
+  def __init__(self, code, detail):
+    super().__init__('code %s: %s' % (code, detail))
+    self.code = code
+
 class UBaseExc(BaseException):
   def __init__(self, why):
     super().__init__(why)
@@ -215,6 +224,7 @@ USER_CTORS = [
     ('UTypeErrInt', "UTypeErrInt(4, 2)"),
     ('UTypeErrInt', "UTypeErrInt()"),
     ('UNoArgsInit', "UNoArgsInit()"),
+    ('UNewMismatch', "UNewMismatch(9, 'nine')"),
     ('UBaseExc', "UBaseExc('base')"),
 ]
 
@@ -389,6 +399,10 @@ def run(case):
     except Exception as e:  # pylint: disable=broad-except
       raise RuntimeError('catalogue entry %s cannot be built: %r' % (label, e))
     state['exc'] = orig
+    # what the exception looks like when it is raised (the object that reaches
+    # the caller may be this very object)
+    want_at_raise = _public_attrs(orig)
+    str_at_raise = str(orig)
     state['fire'] = True
     injections += 1
     caught = None
@@ -433,7 +447,7 @@ def run(case):
         '%s: caught class is (%s, %s, %s)' % (label, t.__name__,
                                               t.__qualname__, t.__module__))
     # --- args and public attributes ---
-    want = _public_attrs(orig)
+    want = want_at_raise
     for n in sorted(want):
       try:
         got = getattr(caught, n)
@@ -452,7 +466,7 @@ def run(case):
           '%s injected at %s depth %d: caught.%s is %r, original.%s is %r' %
           (label, site, depth, n, got, n, want[n]))
     # --- message ---
-    s_orig = str(orig)
+    s_orig = str_at_raise
     s = str(caught)
     if not s.startswith(s_orig):
       v('C17.message_extended', [family, 'prefix'],
